@@ -140,3 +140,54 @@ package verifspec
 //@   loop 2 invariant 0 <= f.line && f.line <= l2 + len(seg) - len(w) && 0 <= f.column && f.column <= c2 + len(seg) - len(w)
 //@   loop 2 decreases len(w)
 //@   loop 2 hint exit: split(seg, 0, len(seg) - len(w), len(seg))
+
+// ---- where the mapping configuration and the positions of synthesized identifiers come from (C19)
+// Filter.EnableMapping stores each argument in the field of the same name; Session.EnableMapping passes the build
+// environment's GOROOT as goroot and GOPATH as gopath (normalizePath treats the two differently).
+//@ func internal/sourcemapx.Filter.EnableMapping
+//@ property C19
+//@   requires f != nil
+//@   assigns f.m, f.goroot, f.gopath, f.localMap, f.goMappingCallback, f.jsMappingCallback
+//@   ensures f.goroot == goroot && f.gopath == gopath && f.localMap == localMap
+//@   ensures f.m != nil && f.m.File == jsFileName
+//@   ensures f.goMappingCallback != nil && f.jsMappingCallback != nil
+
+//@ pure envOf(x int) int
+//@ extern build.XContext.Env
+//@   param x
+//@   assigns nothing
+//@   ensures samestr(result.GOROOT, asptr(envOf(key(x)), "build.Env").GOROOT) && samestr(result.GOPATH, asptr(envOf(key(x)), "build.Env").GOPATH)
+//@   ensures len(result.GOROOT) == len(asptr(envOf(key(x)), "build.Env").GOROOT) && len(result.GOPATH) == len(asptr(envOf(key(x)), "build.Env").GOPATH)
+
+//@ func build.Session.EnableMapping
+//@ property C19
+//@   requires s != nil && filter != nil && s.options != nil
+//@   assigns filter.m, filter.goroot, filter.gopath, filter.localMap, filter.goMappingCallback, filter.jsMappingCallback
+//@   ensures filter.goroot == asptr(envOf(key(s.xctx)), "build.Env").GOROOT && filter.gopath == asptr(envOf(key(s.xctx)), "build.Env").GOPATH
+//@   ensures filter.localMap == s.options.MapToLocalDisk
+
+// newIdentFor: an identifier synthesized for a Go object carries the object's position (the source map entry of the
+// statement built around it depends on it).
+//@ pure objPos(o int) int
+//@ extern go/types.Object.Pos
+//@   param o
+//@   assigns nothing
+//@   ensures result == objPos(key(o))
+//@ extern go/types.Object.Name
+//@   param o
+//@   assigns nothing
+//@ extern go/types.Object.Type
+//@   param o
+//@   assigns nothing
+//@ extern go/ast.NewIdent
+//@   param name
+//@   ensures result != nil && newobj(result) && result.Name == name && result.NamePos == 0
+//@ func compiler.funcContext.setType
+//@ property C19
+//@   requires fc != nil && fc.pkgCtx != nil && fc.pkgCtx.Info != nil && fc.pkgCtx.Info.Info != nil && !isnil(fc.pkgCtx.Info.Info.Types)
+//@   assigns fc.pkgCtx.Info.Info.Types
+//@   ensures result == e
+//@ func compiler.funcContext.newIdentFor
+//@ property C19
+//@   requires fc != nil && fc.pkgCtx != nil && fc.pkgCtx.Info != nil && fc.pkgCtx.Info.Info != nil && !isnil(fc.pkgCtx.Info.Info.Types) && !isnil(fc.pkgCtx.Info.Info.Uses)
+//@   ensures result != nil && result.NamePos == objPos(key(obj))
